@@ -19,6 +19,25 @@ def GTC(s, n):
     return _GTC(*s.cs, s.arr("F:_name"), s.arr("F:_content"), n)
 
 
+# ghost: the last child of n named x among the first k (None when there is none)   LCHU(0) = None; LCHU(k+1) = kid k if it is named x else LCHU(k)
+_LCHU = z3.Function("last_child_named_upto", *_CS, smt.FieldArr, I, S, I, Val)
+_LCH = z3.Function("last_child_named", *_CS, smt.FieldArr, I, S, Val)
+
+
+def LCHU(s, n, x, k):
+    return _LCHU(*s.cs, s.arr("F:_name"), n, z3.StringVal(x) if isinstance(x, str) else x, k)
+
+
+def LCH(s, n, x):
+    return _LCH(*s.cs, s.arr("F:_name"), n, z3.StringVal(x) if isinstance(x, str) else x)
+
+
+def lchu_step(s, n, x, k):
+    xs = z3.StringVal(x) if isinstance(x, str) else x
+    return z3.And(LCHU(s, n, x, 0) == Val.none, LCH(s, n, x) == LCHU(s, n, x, s.nkids(n)),
+                  LCHU(s, n, x, k + 1) == z3.If(s.name(s.kid(n, k)) == xs, s.at(s.kids(n), k), LCHU(s, n, x, k)))
+
+
 def truthy_content(s, m):
     c = s.f("_content", m)
     return z3.And(Val.is_strv(c), z3.Length(Val.s(c)) > 0)
@@ -176,4 +195,120 @@ def install(w):
     con = Contract(EV + "_description_rule", params={"node": "Node"}, requires=base_req, ensures=de_ensures, allocates=True, result_ty="list:val", modular=False)
     out["_description_rule"] = (evaluate._description_rule, con)
     out["__gtc"] = gtc
+
+    # ---- data table: which of its descendants the five checks look at is part of the specification (first / last child by name)
+    from . import c09_queries as Q9
+    FCH = Q9.FCH
+
+    def ok(s, v):
+        return z3.And(v != Val.none, truthy_content(s, Val.r(v)))
+
+    def dt_terms(s, node):
+        phys = FCH(s, node, names.PHYSICAL)
+        P = Val.r(phys)
+        pick = lambda nm: z3.If(phys == Val.none, Val.none, LCH(s, P, nm))
+        size, auth, rd1, df = pick(names.SIZE), pick(names.AUTHENTICATION), pick(names.RECORDDELIMITER), pick(names.DATAFORMAT)
+        tf = z3.If(df == Val.none, Val.none, FCH(s, Val.r(df), names.TEXTFORMAT))
+        rd2 = z3.If(tf == Val.none, Val.none, FCH(s, Val.r(tf), names.RECORDDELIMITER))
+        rd = z3.If(rd2 != Val.none, rd2, rd1)
+        nrec = FCH(s, node, names.NUMBEROFRECORDS)
+        return dict(phys=phys, size=size, auth=auth, rd1=rd1, df=df, tf=tf, rd2=rd2, rd=rd, nrec=nrec)
+
+    def dt_axioms(s, node):
+        t = dt_terms(s, node)
+        P = Val.r(t["phys"])
+        d = {"fch-physical": Q9.fch_def(s, node, names.PHYSICAL), "fch-nrec": Q9.fch_def(s, node, names.NUMBEROFRECORDS),
+             "fch-tf": Q9.fch_def(s, Val.r(LCH(s, P, names.DATAFORMAT)), names.TEXTFORMAT),
+             "fch-rd": Q9.fch_def(s, Val.r(FCH(s, Val.r(LCH(s, P, names.DATAFORMAT)), names.TEXTFORMAT)), names.RECORDDELIMITER)}
+        for nm in (names.SIZE, names.AUTHENTICATION, names.RECORDDELIMITER, names.DATAFORMAT):
+            d["lch-" + nm] = z3.And(LCHU(s, P, nm, 0) == Val.none, LCH(s, P, nm) == LCHU(s, P, nm, s.nkids(P)))
+        return d
+
+    def dt_ensures(s0, s, node, result):
+        t = dt_terms(s0, node)
+        desc = exists_child(s0, node, lambda j: child_is(s0, node, j, names.ENTITYDESCRIPTION), tag="d")
+        return {"ref": Val.is_ref(result),
+                **warn_parts(s, Val.r(result), node, [(z3.Not(desc), EW.DATATABLE_DESCRIPTION_MISSING), (z3.Not(ok(s0, t["size"])), EW.DATATABLE_SIZE_MISSING),
+                                                      (z3.Not(ok(s0, t["auth"])), EW.DATATABLE_MD5_CHECKSUM_MISSING),
+                                                      (z3.Not(ok(s0, t["nrec"])), EW.DATATABLE_NUMBER_OF_RECORDS_MISSING),
+                                                      (z3.Not(ok(s0, t["rd"])), EW.DATATABLE_RECORD_DELIMITER_MISSING)])}
+
+    def none_named_before(s0, n, nm, k, tag):
+        j = z3.Int(tag + "_j")
+        return smt.FA([j], z3.Implies(z3.And(0 <= j, j < k), s0.name(s0.kid(n, j)) != z3.StringVal(nm)), patterns=[s0.at(s0.kids(n), j)])
+
+    def dt_inv_any(s0, s, v):
+        fl = v.raw("__comp1")
+        flt = fl.t if isinstance(fl, Sym) else z3.BoolVal(bool(fl))
+        return {"bound": v._k <= s0.nkids(v.node),
+                "none-yet": z3.And(flt == z3.BoolVal(False), z3.Not(exists_child(s0, v.node, lambda j: child_is(s0, v.node, j, names.ENTITYDESCRIPTION), upto=v._k, tag="d")))}
+
+    def first_inv(var, parent_of, nm, keep=()):
+        def inv(s0, s, v):
+            n = parent_of(v)
+            return {"bound": v._k <= s0.nkids(n), "not-found-yet": v.V(var) == Val.none, "none-before": none_named_before(s0, n, nm, v._k, "fb")}
+        return inv
+
+    def dt_inv_phys_children(s0, s, v):
+        P = Val.r(v.V("physical_node"))
+        return {"bound": v._k <= s0.nkids(P), "auth": v.V("authentication_node") == LCHU(s0, P, names.AUTHENTICATION, v._k),
+                "rd": v.V("record_delimiter_node") == LCHU(s0, P, names.RECORDDELIMITER, v._k), "size": v.V("size_node") == LCHU(s0, P, names.SIZE, v._k),
+                "df": v.V("data_format_node") == LCHU(s0, P, names.DATAFORMAT, v._k)}
+
+    def dt_ax_phys_children(s0, s, v):
+        P = Val.r(v.V("physical_node"))
+        return {nm: lchu_step(s0, P, nm, v._k) for nm in (names.SIZE, names.AUTHENTICATION, names.RECORDDELIMITER, names.DATAFORMAT)}
+
+    NT = "opt:Node"
+    vt = {"child": "Node", "physical_node": NT, "authentication_node": NT, "number_of_records_node": NT, "size_node": NT, "data_format_node": NT,
+          "text_format_node": NT, "record_delimiter_node": NT}
+    q = EV + "_datatable_rule"
+    con = Contract(q, params={"node": "Node"}, requires=base_req, axioms=dt_axioms, ensures=dt_ensures, allocates=True, result_ty="list:val", modular=False,
+                   assumptions=("T-unfold(first_child_named, last_child_named)",))
+    w.loop(q, 1, inv=dt_inv_any, var_types=vt)
+    w.loop(q, 2, inv=first_inv("physical_node", lambda v: v.node, names.PHYSICAL), var_types=vt)
+    w.loop(q, 3, inv=dt_inv_phys_children, axioms=dt_ax_phys_children, var_types=vt)
+    w.loop(q, 4, inv=first_inv("text_format_node", lambda v: Val.r(v.V("data_format_node")), names.TEXTFORMAT), var_types=vt)
+    def dt_inv_rd(s0, s, v):
+        T = Val.r(v.V("text_format_node"))
+        return {"bound": v._k <= s0.nkids(T), "kept-so-far": v.V("record_delimiter_node") == v.V("old_rd"), "none-before": none_named_before(s0, T, names.RECORDDELIMITER, v._k, "fr")}
+    w.loop(q, 5, inv=dt_inv_rd, ghost={"old_rd": lambda s, v: v.V("record_delimiter_node")}, var_types=vt)
+    w.loop(q, 6, inv=first_inv("number_of_records_node", lambda v: v.node, names.NUMBEROFRECORDS), var_types=vt)
+    # the paths through the six loops are joined before the five independent checks (keeps the number of paths additive)
+    from pyvc.task import MergeC
+    from pyvc.loops import NS, havoc_like
+    from pyvc.core import arr_sort
+    DT_LOCALS = {"size_node": "size", "authentication_node": "auth", "number_of_records_node": "nrec", "record_delimiter_node": "rd"}
+
+    def dt_merge_inv(s0, s, ip):
+        fr = ip.frames[-1]
+        ev = fr.locals["evaluation"]
+        if isinstance(ev, PList) and ev.ref is None:
+            ip.c.promote(ev)
+        v = NS(ip, dict(fr.locals))
+        node = v.node
+        t = dt_terms(s0, node)
+        L = ev.ref if isinstance(ev, PList) else ev.t
+        desc = exists_child(s0, node, lambda j: child_is(s0, node, j, names.ENTITYDESCRIPTION), tag="d")
+        d = {"list": z3.And(L >= s0.top, L < s.top, kind(L) == KIND_LIST)}
+        d.update({k.replace("top:", "so-far:"): x for k, x in warn_parts(s, L, node, [(z3.Not(desc), EW.DATATABLE_DESCRIPTION_MISSING)]).items()})
+        for loc, key in DT_LOCALS.items():
+            x = v.V(loc)
+            d["is:" + key] = x == t[key]
+            d["typed:" + key] = z3.Or(x == Val.none, z3.And(Val.is_ref(x), s0.is_node(Val.r(x))))
+        return d
+
+    def dt_merge_havoc(ip):
+        c = ip.c
+        fr = ip.frames[-1]
+        for loc in DT_LOCALS:
+            fr.locals[loc] = havoc_like(ip, None, NT, loc)
+        for a in ("llen", "lelem"):
+            c.heap.set(a, c.fresh("mg_" + a, arr_sort(a)))
+        nt = c.fresh("top", I)
+        c.assume(nt >= c.heap.top)
+        c.heap.top = nt
+
+    w.after_loop[(q, 6)] = MergeC(dt_merge_inv, dt_merge_havoc)
+    out["_datatable_rule"] = (evaluate._datatable_rule, con)
     return out
